@@ -283,6 +283,27 @@ def build_cases(tier):
                           tags={f"failure:status{status // 100}xx_valid_body", f"status:{status}"}))
     for status in (201, 203, 206, 226, 299):
         cases.append(dict(label="introspection_2xx", queries=OPSETS["ops1"], opset="ops1", source={"kind": "introspection", "answer": f"valid_body_status{status}"}, tags={"source:introspection", f"status:{status}"}))
+    # equally named files in different sub-directories (each must be read), incl. the same name at three depths
+    for k in (1, 2, 4):
+        files = {"users/types.graphql": "\n".join(DEFS[:k]) + "\n", "orders/types.graphql": "\n".join(DEFS[k:k + 1]) + "\n", "types.graphql": "\n".join(DEFS[k + 1:]) + "\n"}
+        cases.append(dict(label="same_base_names", queries=OPSETS["ops1"], opset="ops1", source={"kind": "dir", "files": files}, tags={"source:dir", "same_base_names"}))
+    cases.append(dict(label="same_base_names", queries=OPSETS["ops1"], opset="ops1", tags={"source:dir", "same_base_names"},
+                      source={"kind": "dir", "files": {"a/b/schema.gql": "\n".join(DEFS[:2]) + "\n", "a/schema.gql": "\n".join(DEFS[2:4]) + "\n", "schema.gql": "\n".join(DEFS[4:]) + "\n"}}))
+    # pruning options: the closure of used inputs / enums must not depend on the order in which the source lists the definitions
+    prune = {"include_all_inputs": False, "include_all_enums": False}
+    extra = ["enum SortOrder { ASC DESC }", "input Audit { order: SortOrder who: String }", "input Page { order: SortOrder size: Int }", "extend type Query { paged(p: Page): Int audited(a: Audit): Int }"]
+    psdl = SCHEMA6 + "\n".join(extra) + "\n"
+    pq = "query Paged($p: Page) { paged(p: $p) }\n"
+    common = dict(queries=pq, opset="pruned", schema_text=psdl, options=prune)
+    cases.append(dict(common, label="single_file", source={"kind": "file"}, tags={"source:file", "pruning"}))
+    cases.append(dict(common, label="pruned_introspection", source={"kind": "introspection"}, tags={"source:introspection", "pruning"}))
+    import itertools as _it
+    for perm in _it.permutations(range(3)):
+        names = ["a_first.graphql", "m_middle.graphql", "z_last.graphql"]
+        files = {"base.graphql": SCHEMA6, "zz_ext.graphql": extra[3] + "\n"}
+        for fn, idx in zip(names, perm):
+            files[fn] = extra[idx] + "\n"
+        cases.append(dict(common, label="pruned_dir", source={"kind": "dir", "files": files}, tags={"source:dir", "pruning", f"definition_order:{''.join(map(str, perm))}"}))
     # failures
     for mode in ("invalid_utf8_body", "latin1_html_body", "invalid_url", "status100", "status301", "status404", "status500", "non_json", "json_array", "no_data", "errors", "errors_with_data", "data_not_object", "data_null",
                  "data_without_schema", "truncated_schema", "schema_null"):
